@@ -126,8 +126,9 @@ theorem fa_fl_nil (re : Bool) : ∀ (fuel : Nat) (node : Val) (toks : List Str) 
     intro node toks ps
     exact step_fl_nil re (fun n t p => ih n t p) node toks ps
 
-/-- a search that starts from the fresh defaults leaves them fresh -/
-theorem findallTop_state (fuel : Nat) (t : Val) (e : Str) : (findallTop fuel fresh t e).state = fresh := by
+/-- a search that starts from the fresh defaults leaves them fresh (both modes) -/
+theorem findallTop_state (fuel : Nat) (t : Val) (e : Str) (re : Bool := true) :
+    (findallTop fuel fresh t e re).state = fresh := by
   simp only [findallTop, fresh, Out.state, fa_ps, fa_fl_nil]
 
 theorem runHist_fresh (fuel : Nat) (h : List (Val × Str)) :
@@ -137,6 +138,200 @@ theorem runHist_fresh (fuel : Nat) (h : List (Val × Str)) :
   | cons te rest ih =>
     obtain ⟨t, e⟩ := te
     simp only [runHist, findallTop_state, ih, List.map_cons]
+
+theorem runHistM_fresh (fuel : Nat) (h : List (Val × Str × Bool)) :
+    runHistM fuel fresh h = (h.map (fun te => (findallTop fuel fresh te.1 te.2.1 te.2.2).res), fresh) := by
+  induction h with
+  | nil => rfl
+  | cons te rest ih =>
+    obtain ⟨t, e, re⟩ := te
+    simp only [runHistM, findallTop_state, ih, List.map_cons]
+
+/-! ## `raise_exception=False`: a miss is never signalled by an exception
+
+With `raise_exception=False` every `raise IndexError` / `raise KeyError` of `_findall` is replaced
+by `return None` (`raiseOr`), and since fix C19-d the last branch (a step on a final element) is a
+miss too.  What can still be raised are the errors of the expression itself (`classify`:
+`TypeError`, `ValueError`, `SyntaxError`) and `AttributeError` (`text()` on a non-string). -/
+
+/-- the outcome is not one of the two exceptions `_findall` uses for "not there" -/
+def NoMiss (r : PyM (Option Found)) : Prop := r ≠ .error .IndexError ∧ r ≠ .error .KeyError
+
+def RecNoMiss (rec : Val → List Str → FL → PS → Out) : Prop := ∀ n t f p, NoMiss (rec n t f p).res
+
+theorem noMiss_ok (f : Option Found) : NoMiss (.ok f) := ⟨(by intro h; cases h), (by intro h; cases h)⟩
+
+theorem noMiss_raiseOr (e : PyErr) : NoMiss (raiseOr false e) := noMiss_ok _
+
+theorem noMiss_err (e : PyErr) (h1 : e ≠ .IndexError) (h2 : e ≠ .KeyError) : NoMiss (.error e) :=
+  ⟨(by intro h; cases h; exact h1 rfl), (by intro h; cases h; exact h2 rfl)⟩
+
+/-- the exceptions a step raises by itself (malformed bracket, `int()`, `eval`, unknown
+condition) are never IndexError / KeyError -/
+def OkStep (s : Step) : Prop := s ≠ .fail .IndexError ∧ s ≠ .fail .KeyError
+theorem ok_of (s : Step) (h : ∀ e, s = .fail e → e ≠ .IndexError ∧ e ≠ .KeyError) : OkStep s :=
+  ⟨fun he => (h _ he).1 rfl, fun he => (h _ he).2 rfl⟩
+theorem ok_ite (c : Prop) [Decidable c] (a b : Step) (ha : OkStep a) (hb : OkStep b) :
+    OkStep (if c then a else b) := by split <;> assumption
+theorem ok_up : OkStep .up := ⟨(by intro h; cases h), (by intro h; cases h)⟩
+theorem ok_star : OkStep .star := ⟨(by intro h; cases h), (by intro h; cases h)⟩
+theorem ok_name (n : Str) : OkStep (.name n) := ⟨(by intro h; cases h), (by intro h; cases h)⟩
+theorem ok_idx (n : Int) : OkStep (.idx n) := ⟨(by intro h; cases h), (by intro h; cases h)⟩
+theorem ok_text (b : Bool) (n : Str) : OkStep (.text b n) := ⟨(by intro h; cases h), (by intro h; cases h)⟩
+theorem ok_fail (e : PyErr) (h1 : e ≠ .IndexError) (h2 : e ≠ .KeyError) : OkStep (.fail e) :=
+  ⟨(by intro h; cases h; exact h1 rfl), (by intro h; cases h; exact h2 rfl)⟩
+theorem classify_ok (tok : Str) : OkStep (classify tok) := by
+  unfold classify
+  refine ok_ite _ _ _ ok_up ?_
+  refine ok_ite _ _ _ ?_ (ok_name _)
+  refine ok_ite _ _ _ (ok_fail _ (by decide) (by decide)) ?_
+  refine ok_ite _ _ _ (ok_fail _ (by decide) (by decide)) ?_
+  refine ok_ite _ _ _ ?_ ?_
+  · generalize XPath.pyInt _ = x
+    cases x
+    · exact ok_fail _ (by decide) (by decide)
+    · exact ok_idx _
+  refine ok_ite _ _ _ ok_star ?_
+  refine ok_ite _ _ _ ?_ ?_
+  · generalize evalLast _ = x
+    cases x
+    · exact ok_fail _ (by decide) (by decide)
+    · exact ok_idx _
+  refine ok_ite _ _ _ ?_ (ok_fail _ (by decide) (by decide))
+  dsimp only
+  generalize (if startsWith _ ['=', '='] = true then some (true, ['=', '=']) else _ : Option (Bool × Str)) = c
+  cases c with
+  | none => exact ok_fail _ (by decide) (by decide)
+  | some p =>
+    obtain ⟨eq, delim⟩ := p
+    dsimp only
+    generalize XPath.splitOnce _ _ = y
+    cases y with
+    | none => exact ok_fail _ (by decide) (by decide)
+    | some q => exact ok_text _ _
+
+theorem classify_fail_noMiss (tok : Str) (e : PyErr) (h : classify tok = .fail e) :
+    e ≠ .IndexError ∧ e ≠ .KeyError := by
+  have := classify_ok tok
+  rw [h] at this
+  exact ⟨fun he => this.1 (by rw [he]), fun he => this.2 (by rw [he])⟩
+
+theorem starLoop_noMiss (call : Val → FL → Out) (last : Str) (hc : ∀ c cur, NoMiss (call c cur).res) :
+    ∀ (xs : List Val) (i : Nat) (cur : FL) (acc : Found), NoMiss (starLoop call false last i xs cur acc).1 := by
+  intro xs
+  induction xs with
+  | nil => intro i cur acc; exact noMiss_ok _
+  | cons c cs ih =>
+    intro i cur acc
+    unfold starLoop
+    split
+    · have h := hc c (setLast cur (last ++ XPath.bracket (natRepr i)))
+      dsimp only
+      split
+      · next e he => rw [he] at h; exact h
+      · exact ih _ _ _
+    · exact noMiss_raiseOr .IndexError
+
+theorem keysLoop_noMiss (call : Str → Val → Out) (hc : ∀ k c, NoMiss (call k c).res) :
+    ∀ (kvs : List (Str × Val)) (acc : Found), NoMiss (keysLoop call kvs acc) := by
+  intro kvs
+  induction kvs with
+  | nil => intro acc; exact noMiss_ok _
+  | cons kc rest ih =>
+    intro acc
+    obtain ⟨k, c⟩ := kc
+    unfold keysLoop
+    split
+    · have h := hc k c
+      split
+      · next e he => rw [he] at h; exact h
+      · exact ih _
+    · exact ih _
+
+section
+variable {rec : Val → List Str → FL → PS → Out} (hr : RecNoMiss rec)
+include hr
+
+theorem stepUp_noMiss (rest : List Str) (fl : FL) (ps : PS) : NoMiss (stepUp rec false rest fl ps).res := by
+  unfold stepUp
+  split
+  · exact noMiss_raiseOr .KeyError
+  · exact hr _ _ _ _
+
+theorem stepText_noMiss (node : Val) (rest : List Str) (eq : Bool) (v : Str) (fl : FL) (ps : PS) :
+    NoMiss (stepText rec node rest eq v fl ps).res := by
+  unfold stepText
+  split
+  · split
+    · exact noMiss_err _ (by decide) (by decide)
+    · split
+      · exact noMiss_ok _
+      · exact hr _ _ _ _
+  · exact noMiss_err _ (by decide) (by decide)
+
+theorem stepIdx_noMiss (node : Val) (rest : List Str) (i : Int) (fl : FL) (ps : PS) :
+    NoMiss (stepIdx rec false node rest i fl ps).res := by
+  unfold stepIdx
+  split
+  · split
+    · exact noMiss_raiseOr .IndexError
+    · split
+      · exact noMiss_err _ (by decide) (by decide)
+      · split
+        · exact hr _ _ _ _
+        · exact noMiss_raiseOr .IndexError
+  · split
+    · exact noMiss_raiseOr .IndexError
+    · exact noMiss_raiseOr .KeyError
+  · exact noMiss_ok _
+
+theorem stepStar_noMiss (node : Val) (rest : List Str) (fl : FL) (ps : PS) :
+    NoMiss (stepStar rec false node rest fl ps).res := by
+  unfold stepStar
+  split
+  · exact starLoop_noMiss _ _ (fun c cur => hr _ _ _ _) _ _ _ _
+  · exact noMiss_raiseOr .IndexError
+  · exact noMiss_ok _
+
+theorem stepName_noMiss (node : Val) (tok : Str) (rest : List Str) (fl : FL) (ps : PS) :
+    NoMiss (stepName rec false node tok rest fl ps).res := by
+  unfold stepName
+  split
+  · exact hr _ _ _ _
+  · split
+    · exact noMiss_raiseOr .KeyError
+    · split
+      · dsimp only
+        split
+        · next e he => rw [← he]; exact hr _ _ _ _
+        · exact keysLoop_noMiss _ (fun k c => hr _ _ _ _) _ _
+      · split
+        · exact hr _ _ _ _
+        · exact noMiss_ok _
+  · exact noMiss_ok _
+
+theorem step_noMiss (node : Val) (toks : List Str) (fl : FL) (ps : PS) :
+    NoMiss (step rec false node toks fl ps).res := by
+  unfold step
+  split
+  · exact noMiss_ok _
+  · next tok rest =>
+    split
+    · exact stepUp_noMiss hr _ _ _
+    · next e he => exact noMiss_err e (classify_fail_noMiss tok e he).1 (classify_fail_noMiss tok e he).2
+    · exact stepText_noMiss hr _ _ _ _ _ _
+    · exact stepIdx_noMiss hr _ _ _ _ _
+    · exact stepStar_noMiss hr _ _ _ _
+    · exact stepName_noMiss hr _ _ _ _ _
+
+end
+
+/-- **with `raise_exception=False` `_findall` never raises IndexError or KeyError** -/
+theorem fa_noMiss : ∀ (fuel : Nat), RecNoMiss (fa false fuel) := by
+  intro fuel
+  induction fuel with
+  | zero => intro n t f p; exact noMiss_err _ (by decide) (by decide)
+  | succ k ih => intro n t f p; exact step_noMiss ih n t f p
 
 /-! ## classification of the two kinds of step an exact path consists of -/
 open N0.XPath in
